@@ -403,13 +403,13 @@ func c02tClass(in Fields) string {
 	if ok {
 		n = len(c.items)
 	}
-	size := "lines<60"
+	size := "items<60"
 	if n >= 200 {
-		size = "lines>=200"
+		size = "items>=200"
 	} else if n >= 120 {
-		size = "lines<200"
+		size = "items<200"
 	} else if n >= 60 {
-		size = "lines<120"
+		size = "items<120"
 	}
 	return fmt.Sprintf("transcript:tracking=%d:negotiation=%d:sasl=%d:%s", m&1, (m>>1)&1, (m>>2)&1, size)
 }
